@@ -61,6 +61,12 @@ def compare_views(ctx, site, tg, small, obj, tw, views, what):
         except Exception as e:
             ctx.violate(site, tg + ["raises", "view=" + v, what], small, {"exception": repr(e)[:300]})
             return False
+        if v == "tess":
+            # two derived views of the same object: the mesh vertices are the sampled points, in the order of the sampled grid
+            ev = read_view(obj, "evalpts")
+            if not close_seq(a[0], ev, 1e-9):
+                ctx.violate(site, tg + ["view=tess", "vertices_vs_evalpts", what], small, {"n_vertices": len(a[0]), "n_evalpts": len(ev)})
+                return False
         b = read_view(tw, v)
         if not close_seq(a, b, 1e-9):
             ctx.violate(site, tg + ["view=" + v, what], small, {"view": v, "object_reports": str(a)[:300], "fresh_twin_reports": str(b)[:300]})
